@@ -2,20 +2,29 @@
 """Markdown table of the seeded changes under /verif/seeded and of the checks that detect them (from meta.json)."""
 import glob, json, os
 rows = []
+missed = []
 for d in sorted(glob.glob(os.path.join(os.path.dirname(os.path.abspath(__file__)), "..", "seeded", "*"))):
+    sid = os.path.basename(d)
+    prop = sid.split("-")[0]
     m = json.load(open(os.path.join(d, "meta.json")))
     w = m.get("what_was_run", {})
-    det = []
-    for k, v in w.get("checks", {}).items():
+
+    def fmt(v):
         if v["with_failing_input"]:
-            det.append(f"{k} ({v['with_failing_input']} failing inputs)")
-        elif v["violations"]:
-            det.append(f"{k} (no-failing-input-found)")
-        else:
-            det.append(f"{k}: not detected")
+            r = f"{v['with_failing_input']} failing inputs"
+            if v.get("replay_on_patched_exit") is not None:
+                r += f", replay {v['replay_on_patched_exit']}/{v['replay_on_clean_exit']}"
+            return r
+        return "no-failing-input-found" if v["violations"] else "not detected"
+    own = w.get("checks", {}).get(prop)
+    others = [f"{k}: {fmt(v)}" for k, v in w.get("checks", {}).items() if k != prop]
+    if own is None or not own["with_failing_input"]:
+        missed.append(sid)
     summ = " ".join(m.get("summary", "").split())
-    if len(summ) > 230:
-        summ = summ[:227] + "..."
-    rows.append(f"| {os.path.basename(d)} | {summ} | {'; '.join(det)} |")
-print("| seed | change | checks run against it (quick tier) |\n|---|---|---|")
+    if len(summ) > 200:
+        summ = summ[:197] + "..."
+    rows.append(f"| {sid} | {summ} | {fmt(own) if own else 'not run'} | {'; '.join(others)} |")
+print("| seed | change | check of its own property (quick tier; replay exit on patched/clean tree) | other checks run against it |\n|---|---|---|---|")
 print("\n".join(rows))
+print()
+print(f"{len(rows)} seeded changes; not detected with a failing input by the check of their own property: {', '.join(missed) if missed else 'none'}")
